@@ -391,6 +391,8 @@ def r05_9(ctx):
                             bs = op_bytes(s[1])
                 if bs is not None and b'"' in bs and t["callee"].rsplit("::", 1)[-1] in ("write_all", "write", "extend_from_slice", "push"):
                     sites.append((b, t["ln"], f"{t['callee'].rsplit('::', 1)[-1]}({bs!r})"))
+                elif op_int(a) == 0x22 and a.get("ty") == "u8" and t["callee"].rsplit("::", 1)[-1] in ("write", "push", "write_volatile", "write_unaligned"):
+                    sites.append((b, t["ln"], f"{t['callee'].rsplit('::', 1)[-1]}(b'\"')"))
         if f.name == "format_string":
             ctx.floor("R05.9", "quote stores in format_string", len(sites), 2)
         for b, ln, what in sites:
